@@ -402,6 +402,8 @@ def check(chk):
     init = repo.func("mpf/core/mode.py", "Mode.__init__")
     ok = any(isinstance(n, ast.Assign) and src(n.targets[0]) == "self.delay" and "DelayManager" in src(n.value) for n in walk_local(init.node))
     chk.ob("DOM-26", "each mode owns its DelayManager", ok, init.where(), construct=init.ident, text="mode delay manager")
+    from sa.helpers import mode_delays_own
+    mode_delays_own(chk, "DOM-26")
 
 
 def _done_rules(chk, repo, tm):
@@ -622,6 +624,7 @@ def battery():
         M("a tick sets the count instead of moving it", TM, "            self.ticks -= 1\n        else:\n            self.ticks += 1", "            self.ticks -= 1\n        else:\n            self.ticks = 1", "TICK-1"),
         M("subtract() overwrites the count", TM, "        self.ticks -= ticks_subtracted", "        self.ticks = ticks_subtracted", "TICK-1"),
         M("tick direction inverted", TM, "        if self.direction == 'down':\n            self.ticks -= 1\n        else:\n            self.ticks += 1", "        if self.direction == 'down':\n            self.ticks += 1\n        else:\n            self.ticks -= 1", "TICK-1"),
+        M("mode delay armed on the machine-wide manager (survives the mode)", "mpf/core/mode.py", "        self.delay.add(ms=ms_delay, callback=callback, mode=self)", "        self.machine.delay.add(ms=ms_delay, callback=callback, mode=self)", "DOM-26"),
     ]
 
 
